@@ -631,8 +631,10 @@ func (it *Iterator) parseItem() bool {
 		return false
 	}
 
-	// Skip banned keys only if it does not have badger internal prefix.
-	if !isInternalKey && it.txn.db.isBanned(key) != nil {
+	// Skip banned keys only if it does not have badger internal prefix. The check is made on the
+	// user key, as in Txn.Get and Txn.modify: key carries the 8 byte timestamp suffix, which must
+	// neither count towards the length nor be read as a part of the namespace.
+	if !isInternalKey && it.txn.db.isBanned(y.ParseKey(key)) != nil {
 		mi.Next()
 		return false
 	}
